@@ -24,10 +24,8 @@ def run_codecseq(scratch, h, tier, prop):
     # the operations that concern this property, plus every failing / holding one (the disturbances)
     mine = [o for o in ops if prop in o["props"]]
     others = [o for o in ops if prop not in o["props"] and o["k"] in ("fail", "hold")]
-    if tier == "quick":
-        alphabet, maxlen = mine + others, 3
-    else:
-        alphabet, maxlen = ops, 4
+    # (the whole alphabet at length 4 would be 1.7 M histories; the property's own operations and every disturbance are kept)
+    alphabet, maxlen = mine + others, (3 if tier == "quick" else 4)
     if any(o["k"] == "use" for o in alphabet) and not any(o["k"] == "hold" for o in alphabet):
         alphabet = [o for o in alphabet if o["k"] != "use"]
     with open(scratch.file("CodecSeqMC.tla"), "w") as f:
